@@ -224,3 +224,15 @@ FN += [
     (lints.conditional_reraise, "def flush(self):\n    f = None\n    try:\n        f = Atomic(self.path)\n        f.write(self.data)\n        f.close()\n    except Exception:\n        if f is not None:\n            f.discard()\n            raise\n",
      "def flush(self):\n    f = None\n    try:\n        f = Atomic(self.path)\n        f.write(self.data)\n        f.close()\n    except Exception:\n        if f is not None:\n            f.discard()\n        raise\n"),
 ]
+
+FN += [
+    (lints.loop_variable_reused, "def f(files, updates, out):\n    for fname in files:\n        for count, fname in updates[fname]:\n            out.append(count)\n        out.append(fname)\n",
+     "def f(files, updates, out):\n    for fname in files:\n        for count, pending in updates[fname]:\n            out.append(count)\n        out.append(fname)\n"),
+    (lints.item_error_around_loop, "def f(pkgs, keep):\n    try:\n        for pkg in pkgs:\n            keep.update(pkg.distfiles)\n    except AttributeError:\n        pass\n",
+     "def f(pkgs, keep):\n    for pkg in pkgs:\n        try:\n            keep.update(pkg.distfiles)\n        except AttributeError:\n            pass\n"),
+]
+
+FN += [
+    (lints.loop_target_clobbers, "def f(ns):\n    repo = ns.domain.pick()\n    for repo in ns.domain.installed_repos:\n        for pkg in repo:\n            keep(pkg)\n    return list(repo.itermatch(ns.restrict))\n",
+     "def f(ns):\n    repo = ns.domain.pick()\n    for irepo in ns.domain.installed_repos:\n        for pkg in irepo:\n            keep(pkg)\n    return list(repo.itermatch(ns.restrict))\n"),
+]
